@@ -1062,3 +1062,7 @@ CLAUSES += [
     Clause("compare_languages", compare_cases, run_compare, quick=600, thorough=5000,
            rule="compare_languages on finite languages: empty feedback iff equal; reported word genuine, right polarity, minimal length in its class"),
 ]
+
+# coverage-guided second driver (atheris / libFuzzer through Hypothesis' fuzz_one_input) for the core clauses: (clause, quick runs, thorough runs)
+from harness.covfuzz import cov_clauses  # noqa: E402
+CLAUSES += cov_clauses('C12', CLAUSES, [('lang_words', 1000, 20000), ('minimal', 1000, 20000)])
